@@ -51,6 +51,13 @@ def l2(c, ctx, exprs):
             res.append(('crash', o[:200]))
     return res
 
+def outside(c, m):
+    """the model declines (irrational root: outside the modelled fragment)"""
+    if m[0] == 'err' and m[1] == 11:
+        c.dist['model-outside-fragment'] = c.dist.get('model-outside-fragment', 0) + 1
+        return True
+    return False
+
 def frac_lit(q):
     return '(%d/%d)' % (q.numerator, q.denominator)
 
@@ -102,6 +109,8 @@ def check(c):
         c.note_case('name:' + n, nontrivial, 'name-duplicate' if dup.get(n, 0) > 1 else ('name-currency' if n in t['currencies'] else 'name-plain'))
         if iv[0] != 'ok' or e[0] != 'o':
             c.violation('name-does-not-resolve', {'kind': 'impl-vs-spec', 'input': '1 ' + n, 'resolver': iv[0], 'evaluate': e})
+            continue
+        if outside(c, m):
             continue
         if not U.lres_same(m, iv):
             c.violation('name-model-differs', {'kind': 'impl-vs-model', 'layer': 'L1 units::query_unit', 'name': n,
@@ -161,7 +170,9 @@ def check(c):
                 c.note_case('pre:' + p + '+' + u, True, 'prefixed-resolves')
             else:
                 c.dist['prefixed-rejected'] = c.dist.get('prefixed-rejected', 0) + 1
-            if ci != cm and nbad < 20:
+            if cm == 4:
+                c.dist['model-outside-fragment'] = c.dist.get('model-outside-fragment', 0) + 1
+            elif ci != cm and nbad < 20:
                 nbad += 1
                 c.violation('prefixed-status-model-differs', {'kind': 'impl-vs-model', 'layer': 'L1 units::query_unit', 'ident': p + u,
                                                               'impl_status': ci, 'model_status': cm}, no_input=True)
@@ -170,7 +181,7 @@ def check(c):
     iv = impl_resolve(c, ctx, [p + u for p, u in samp])
     mv = model_resolve(c, mctx, [], [p + u for p, u in samp])
     for (p, u), a, b in zip(samp, iv, mv):
-        if not U.lres_same(b, a):
+        if not outside(c, b) and not U.lres_same(b, a):
             c.violation('prefixed-value-model-differs', {'kind': 'impl-vs-model', 'layer': 'L1 units::query_unit', 'ident': p + u,
                                                          'impl': repr(a)[:500], 'model': repr(b)[:500]}, no_input=True)
     # `(1 <p><u>) == (<factor> <u>)` at L2, spec: factor = value of the prefix's own definition
@@ -257,7 +268,7 @@ def check(c):
         c.note_case('id:' + s, a[0] == 'ok', 'variant-resolves' if a[0] == 'ok' else 'variant-rejected')
         if a[0] in ('panic', 'crash', 'bad'):
             c.violation('resolver-crash', {'kind': 'impl-crash', 'ident': s, 'impl': repr(a)[:300]})
-        elif not U.lres_same(b, a):
+        elif not outside(c, b) and not U.lres_same(b, a):
             c.violation('ident-model-differs', {'kind': 'impl-vs-model', 'layer': 'L1 units::query_unit', 'ident': s,
                                                 'impl': repr(a)[:500], 'model': repr(b)[:500]}, no_input=True)
 
@@ -275,7 +286,7 @@ def check(c):
                 if x[0] == 'ok':
                     c.violation('currency-without-rates', {'kind': 'impl-vs-spec', 'ident': s, 'context': label, 'impl': repr(x)[:300]})
                 continue
-            if not U.lres_same(y, x):
+            if not outside(c, y) and not U.lres_same(y, x):
                 c.violation('context-model-differs', {'kind': 'impl-vs-model', 'layer': 'L1 units::query_unit', 'ident': s, 'context': label,
                                                       'impl': repr(x)[:400], 'model': repr(y)[:400]}, no_input=True)
         if rates != 1:
@@ -300,7 +311,7 @@ def check(c):
             c.note_case('custom:%s:%s' % (label, s), True, 'custom-units')
             if x[0] in ('panic', 'crash', 'bad'):
                 c.violation('resolver-crash', {'kind': 'impl-crash', 'ident': s, 'customs': customs, 'impl': repr(x)[:300]})
-            elif not U.lres_same(y, x):
+            elif not outside(c, y) and not U.lres_same(y, x):
                 c.violation('custom-model-differs', {'kind': 'impl-vs-model', 'layer': 'L1 units::query_unit', 'ident': s, 'customs': customs,
                                                      'impl': repr(x)[:400], 'model': repr(y)[:400]}, no_input=True)
         if expect:
